@@ -587,31 +587,255 @@ func runC10Inst(c *Ctx) {
 			c.ok("constructor "+fn.Name()+"|callers", fn.Pos(), "only called from (*Linter).check")
 		}
 	}
-	// no Rule is stored into a global or a Linter field
-	n := 0
-	for _, fn := range p.Funcs {
-		eachInstr(fn, func(_ *ssa.BasicBlock, _ int, in ssa.Instruction) {
-			st, ok := in.(*ssa.Store)
-			if !ok || !types.Implements(st.Val.Type(), it) {
-				if !ok {
-					return
+	// no value that is or holds a Rule (a slice, array, map, channel or struct of rules) is put into the Linter, a
+	// package-level variable or an object reachable from them: such an instance is used for more than one file
+	holds := func(t types.Type) string { return holdsRule(t, it, 0) }
+	long := longLivedTypes(p)
+	// where a container value comes from: "" for a local one
+	longLivedSource := func(v ssa.Value) string {
+		for i := 0; i < 8 && v != nil; i++ {
+			switch x := v.(type) {
+			case *ssa.UnOp:
+				switch a := x.X.(type) {
+				case *ssa.Global:
+					return "package-level variable " + a.Name()
+				case *ssa.FieldAddr:
+					if long[pointeeName(a.X.Type())] {
+						return fieldAddrName(a)
+					}
+					v = a.X
+					continue
+				case *ssa.IndexAddr:
+					v = a.X
+					continue
 				}
-				if mi, ok := st.Val.(*ssa.MakeInterface); !ok || !types.Implements(mi.X.Type(), it) {
-					return
-				}
-			}
-			n++
-			switch a := st.Addr.(type) {
-			case *ssa.Global:
-				c.bad(FuncName(fn)+"|rule stored in package-level variable "+a.Name(), st.Pos(), "a rule instance is shared between files")
+				return ""
+			case *ssa.Slice:
+				v = x.X
 			case *ssa.FieldAddr:
-				if pointeeName(a.X.Type()) == "Linter" {
-					c.bad(FuncName(fn)+"|rule stored in "+fieldAddrName(a), st.Pos(), "a rule instance is kept in the Linter and shared between files")
+				if long[pointeeName(x.X.Type())] {
+					return fieldAddrName(x)
+				}
+				v = x.X
+			case *ssa.IndexAddr:
+				v = x.X
+			case *ssa.Global:
+				return "package-level variable " + x.Name()
+			default:
+				return ""
+			}
+		}
+		return ""
+	}
+	// by type: no field of a long-lived object and no package-level variable can hold a rule at all
+	nHold := 0
+	var longNames []string
+	for nm := range long {
+		longNames = append(longNames, nm)
+	}
+	sort.Strings(longNames)
+	for _, nm := range longNames {
+		st, ok := p.Named(nm).Underlying().(*types.Struct)
+		if !ok {
+			continue
+		}
+		for i := 0; i < st.NumFields(); i++ {
+			if what := holds(st.Field(i).Type()); what != "" {
+				nHold++
+				c.bad(nm+"."+st.Field(i).Name()+"|holds rules", st.Field(i).Pos(), "a field of an object that lives longer than one file ("+nm+" is reachable from the Linter or a package-level variable) is a "+what+": rule instances kept there carry their state from one file to the next")
+			}
+		}
+	}
+	nGlobals := 0
+	var globalNames []string
+	for nm, m := range p.SPkg.Members {
+		if _, ok := m.(*ssa.Global); ok {
+			globalNames = append(globalNames, nm)
+		}
+	}
+	sort.Strings(globalNames)
+	for _, nm := range globalNames {
+		g := p.SPkg.Members[nm].(*ssa.Global)
+		nGlobals++
+		if what := holds(g.Type().Underlying().(*types.Pointer).Elem()); what != "" {
+			nHold++
+			c.bad("package-level variable "+nm+"|holds rules", g.Pos(), "a package-level variable is a "+what+": the instance is shared by all files and goroutines")
+		}
+	}
+	if nHold == 0 {
+		c.ok("package|long-lived objects hold no rules", 0, fmt.Sprintf("%d struct types reachable from the Linter and the package-level variables, %d package-level variables: no field or variable has a type that is or holds a Rule", len(longNames), nGlobals))
+	}
+	funcs := append([]*ssa.Function{}, p.Funcs...)
+	if ini := p.SPkg.Func("init"); ini != nil && ini.Blocks != nil {
+		funcs = append(funcs, ini) // initialisers of package-level variables
+	}
+	occ := map[string]int{}
+	emit := func(fn *ssa.Function, pos token.Pos, what, where, why string) {
+		k := FuncName(fn) + "|" + what + " stored in " + where
+		occ[k]++
+		if occ[k] > 1 {
+			k = fmt.Sprintf("%s#%d", k, occ[k])
+		}
+		if why != "" {
+			c.bad(k, pos, why)
+		} else {
+			c.ok(k, pos, "the holder is not the Linter, a package-level variable or an object reachable from them")
+		}
+	}
+	for _, fn := range funcs {
+		eachInstr(fn, func(_ *ssa.BasicBlock, _ int, in ssa.Instruction) {
+			switch st := in.(type) {
+			case *ssa.Store:
+				what := holds(st.Val.Type())
+				if what == "" {
+					if mi, ok := st.Val.(*ssa.MakeInterface); ok {
+						what = holds(mi.X.Type())
+					}
+				}
+				if what == "" || isNilConst(st.Val) {
+					return
+				}
+				switch a := st.Addr.(type) {
+				case *ssa.Alloc:
+					// local variable
+				case *ssa.Global:
+					emit(fn, st.Pos(), what, "package-level variable "+a.Name(), "a rule instance is shared between files")
+				case *ssa.FieldAddr:
+					owner := pointeeName(a.X.Type())
+					switch {
+					case owner == "Linter":
+						emit(fn, st.Pos(), what, fieldAddrName(a), "a rule instance is kept in the Linter and used for every file (and by every goroutine) it checks")
+					case long[owner]:
+						emit(fn, st.Pos(), what, fieldAddrName(a), "a rule instance is kept in a "+owner+", which the Linter or a package-level variable holds: it is used for more than one file")
+					default:
+						emit(fn, st.Pos(), what, fieldAddrName(a), "")
+					}
+				case *ssa.IndexAddr:
+					if src := longLivedSource(a.X); src != "" {
+						emit(fn, st.Pos(), what, "an element of "+src, "a rule instance is kept in "+src+" and used for more than one file")
+					}
+				default:
+					if src := longLivedSource(st.Addr); src != "" {
+						emit(fn, st.Pos(), what, src, "a rule instance is kept in "+src+" and used for more than one file")
+					}
+				}
+			case *ssa.MapUpdate:
+				what := holds(st.Value.Type())
+				if what == "" {
+					if mi, ok := st.Value.(*ssa.MakeInterface); ok {
+						what = holds(mi.X.Type())
+					}
+				}
+				if what == "" {
+					return
+				}
+				if src := longLivedSource(st.Map); src != "" {
+					emit(fn, st.Pos(), what, "the map "+src, "a rule instance is kept in "+src+" and used for more than one file")
+				}
+			case *ssa.Send:
+				if what := holds(st.X.Type()); what != "" {
+					if src := longLivedSource(st.Chan); src != "" {
+						emit(fn, st.Pos(), what, "the channel "+src, "a rule instance is sent over "+src)
+					}
 				}
 			}
 		})
 	}
-	c.ok("package|stores of rule values", 0, fmt.Sprintf("%d stores of Rule values, none into a package-level variable or a Linter field", n))
+}
+
+// holdsRule: t is a Rule (the interface, or a type that implements it), or a slice / array / map / channel / struct value
+// that holds one. Returns a description, "" otherwise.
+func holdsRule(t types.Type, it *types.Interface, depth int) string {
+	if depth > 3 {
+		return ""
+	}
+	if _, isIface := t.Underlying().(*types.Interface); isIface {
+		if types.Implements(t, it) {
+			return "rule"
+		}
+		return ""
+	}
+	if types.Implements(t, it) {
+		return "rule"
+	}
+	sub := func(e types.Type) bool { return holdsRule(e, it, depth+1) != "" }
+	switch u := t.Underlying().(type) {
+	case *types.Slice:
+		if sub(u.Elem()) {
+			return "slice of rules"
+		}
+	case *types.Array:
+		if sub(u.Elem()) {
+			return "array of rules"
+		}
+	case *types.Chan:
+		if sub(u.Elem()) {
+			return "channel of rules"
+		}
+	case *types.Map:
+		if sub(u.Elem()) || sub(u.Key()) {
+			return "map of rules"
+		}
+	case *types.Struct:
+		for i := 0; i < u.NumFields(); i++ {
+			if sub(u.Field(i).Type()) {
+				return "struct holding rules"
+			}
+		}
+	}
+	return ""
+}
+
+// longLivedTypes: the named struct types of the module that can be reached from the Linter or from a package-level
+// variable through fields, pointers, slices, arrays, maps and channels (the objects that live longer than one file).
+func longLivedTypes(p *Prog) map[string]bool {
+	if m, ok := p.memo("longLivedTypes").(map[string]bool); ok {
+		return m
+	}
+	out := map[string]bool{}
+	seen := map[types.Type]bool{}
+	var walk func(t types.Type)
+	walk = func(t types.Type) {
+		if t == nil || seen[t] {
+			return
+		}
+		seen[t] = true
+		if n, ok := t.(*types.Named); ok {
+			if n.Obj().Pkg() != p.Main.Types {
+				return
+			}
+			if _, isStruct := n.Underlying().(*types.Struct); isStruct {
+				out[n.Obj().Name()] = true
+			}
+		}
+		switch u := t.Underlying().(type) {
+		case *types.Pointer:
+			walk(u.Elem())
+		case *types.Slice:
+			walk(u.Elem())
+		case *types.Array:
+			walk(u.Elem())
+		case *types.Chan:
+			walk(u.Elem())
+		case *types.Map:
+			walk(u.Key())
+			walk(u.Elem())
+		case *types.Struct:
+			for i := 0; i < u.NumFields(); i++ {
+				walk(u.Field(i).Type())
+			}
+		}
+	}
+	if l := p.Named("Linter"); l != nil {
+		walk(l)
+	}
+	for _, m := range p.SPkg.Members {
+		if g, ok := m.(*ssa.Global); ok {
+			walk(g.Type())
+		}
+	}
+	p.setMemo("longLivedTypes", out)
+	return out
 }
 
 // ---- C10.PREFIX ----
